@@ -71,10 +71,9 @@ Verdict(nodes) ==
       Eofs(i) == LET f == Flat(i) IN [j \in 1..Len(f) |-> nodes[f[j]].eof]
       FALSES(n) == [j \in 1..n |-> FALSE]
       Try(names, syms, eofs) == \E nm \in names : HasRule(nm) /\ AcceptsX(RuleNamed(nm), syms, eofs)
-      NodeOk(i) ==
+      NodeOkWith(i, eo) ==
         LET n == nodes[i]
             sy == KidSyms(i)
-            eo == Eofs(i)
             names == IF n.type = "lambdef" THEN {"lambdef", "lambdef_nocond"} ELSE {n.type}
         IN
         \/ Try(names, sy, eo)
@@ -94,12 +93,18 @@ Verdict(nodes) ==
                    /\ AcceptsOrUnit("varargslist", SubSeq(sy, 2, j - 1), FALSES(j - 2))
                    /\ Try(names, <<sy[1], <<"N", "varargslist">>>> \o SubSeq(sy, j, Len(sy)),
                           <<FALSE, FALSE>> \o SubSeq(eo, j, Len(eo)))
+      NodeOk(i) == NodeOkWith(i, Eofs(i))
+      (* would the node conform if the missing-newline tolerance were allowed anywhere, not only at end of file? *)
+      RelaxedOk(i) == NodeOkWith(i, [j \in 1..Len(Eofs(i)) |-> TRUE])
+                      \/ (nodes[i].type = "simple_stmt" /\ \E nm \in {"simple_stmt"} :
+                            AcceptsX(RuleNamed(nm), Append(KidSyms(i), VNEWLINE), Append([j \in 1..Len(Eofs(i)) |-> TRUE], FALSE)))
       Checked == {i \in 1..N : ~nodes[i].leaf /\ nodes[i].type \notin {"error_node", "param"}}
       unknown == {i \in Checked : ~HasRule(nodes[i].type)}
       bad == {i \in Checked \ unknown : ~NodeOk(i)}
       Min(S) == CHOOSE x \in S : \A y \in S : x <= y
       OnlyErrorsWrong(i) == \E k \in 1..Len(KidSyms(i)) : KidSyms(i)[k][1] = "E"
   IN IF unknown # {} THEN <<"NodeTypeIsRule", Min(unknown)>>
+     ELSE IF bad # {} /\ RelaxedOk(Min(bad)) THEN <<"NodesConform:newline-missing-not-at-end-of-file", Min(bad)>>
      ELSE IF bad # {} THEN <<IF OnlyErrorsWrong(Min(bad)) THEN "NodesConform/ErrorsConfined" ELSE "NodesConform", Min(bad)>>
      ELSE <<"ok", 0>>
 
